@@ -35,17 +35,17 @@ type discloseScn struct {
 }
 
 type discloseObs struct {
-	ID        int      `json:"id"`
-	Arg       string   `json:"arg"`
-	Opts      []string `json:"opts"`
-	FSMod     bool     `json:"fsmod"`
-	Effective bool     `json:"effective"`
-	Result    string   `json:"result"`
-	Err       string   `json:"err"`
-	Listed    []string `json:"listed"`
-	Fetched   int      `json:"fetched"`
-	Leaks     []string `json:"leaks"`  // canaries found in the server's byte stream / decoded entries
-	Events    []string `json:"events"` // inotify events on the outside region
+	ID        int             `json:"id"`
+	Arg       string          `json:"arg"`
+	Opts      []string        `json:"opts"`
+	FSMod     bool            `json:"fsmod"`
+	Effective bool            `json:"effective"`
+	Result    string          `json:"result"`
+	Err       string          `json:"err"`
+	Listed    []string        `json:"listed"`
+	Fetched   int             `json:"fetched"`
+	Leaks     []string        `json:"leaks"`  // canaries found in the server's byte stream / decoded entries
+	Events    []string        `json:"events"` // inotify events on the outside region
 	Scn       json.RawMessage `json:"scn"`
 }
 
